@@ -981,6 +981,10 @@ def classify(unit: Unit, res):
     out['errors'] = vr.get('errors', 0)
     if vr.get('encountered-vir-error'):
         out['infra'].append('VIR error (unsupported construct)')
+    if 'panicked at' in res.get('stderr_tail', '') or 'Internal Verus Error' in res.get('stderr_tail', ''):
+        out['infra'].append('verus crashed: ' + res['stderr_tail'][-600:])
+    if res['rc'] != 0 and out['errors'] == 0 and not any(d.get('level') == 'error' for d in res['diags']):
+        out['infra'].append('verus exited with %s without reporting a verification result' % res['rc'])
     try:
         for mod in js['times-ms']['smt']['smt-run-module-times']:
             for f in mod.get('function-breakdown', []):
